@@ -29,7 +29,10 @@ class Srv(object):
             if otype == "SymmetricKey":
                 obj.update(alg=label if label in ("AES", "TRIPLE_DES", "CAMELLIA", "BLOWFISH", "CAST5", "IDEA", "RC4") else "AES",
                            len=nbytes * 8, fmt="RAW")
-            r = item(self.drv.request(D.one("Register", {"otype": otype, "attrs": [{"name": "Cryptographic Usage Mask", "v": ALLBITS}], "obj": obj}, ver=(1, 4))))
+            elif otype in ("PublicKey", "PrivateKey", "SplitKey"):
+                obj.update(alg="AES", len=nbytes * 8, fmt="RAW")          # raw material in a key block of another kind
+            attrs = [{"name": "Cryptographic Usage Mask", "v": ALLBITS}] if otype != "OpaqueData" else []
+            r = item(self.drv.request(D.one("Register", {"otype": otype, "attrs": attrs, "obj": obj}, ver=(1, 4))))
             if r["status"] != "Success":
                 raise common.MachineryFailure("cannot register test key: %s" % r)
             u = r["pl"]["uid"]
@@ -51,7 +54,7 @@ def _enc_rows(args):
         for rec in rows:
             p = rec["p"]
             alg = p["alg"]
-            sizes = KEYSIZES[alg]
+            sizes = KEYSIZES.get(alg, [16])
             nb = sizes[rnd.randrange(len(sizes))]
             uid, key = s.key(nb, alg if alg in KEYSIZES and alg not in ("RSA", "HMAC_SHA256", "NONE") else "AES")
             bs = R.block_bytes(alg) if alg in ("AES", "TRIPLE_DES", "CAMELLIA", "BLOWFISH", "CAST5", "IDEA", "RC4") else 16
@@ -251,6 +254,44 @@ def other_rows(run, rows, quick):
                                 run.violation("C06_derived_key_differs_from_reference", dict(sig, two_objects=True),
                                               {"row": rec, "base_objects": "[Secret Data (key), Secret Data (derivation data)]",
                                                "got": got2.hex(), "want": want2.hex()})
+            elif rec["k"] == "asym":
+                # the asymmetric branch of Encrypt / Decrypt, reached with the parameters alone (the key is a symmetric
+                # key object, the only kind these operations accept): every padding x hash must end in a specific refusal
+                d = rec["d"]
+                cp = {"alg": "RSA", "pad": None if d["pad"] == "absent" else d["pad"], "hash": None if d["hash"] == "NONE" else d["hash"]}
+                for op in ("Encrypt", "Decrypt"):
+                    r = item(s.drv.request(D.one(op, {"uid": uid, "cp": cp, "data": "00" * 16}, ver=(1, 4))))
+                    n += 1
+                    sig = {"k": "asym-" + op.lower(), "pad": d["pad"], "hash": d["hash"]}
+                    run.case(("asym", op, d["pad"], d["hash"], r["status"], r["reason"]))
+                    if r["reason"] == "GeneralFailure":
+                        run.violation("C06_internal_error", sig, {"row": rec, "response": r})
+                    elif r["status"] == "Success":
+                        run.violation("C06_accepts_what_must_be_refused", sig, {"row": rec, "response": r})
+            elif rec["k"] == "wrap" and rec.get("t", "SymmetricKey") != "SymmetricKey":
+                # the other kinds of object asked for wrapped: key blocks of other kinds are wrapped like a key, objects
+                # without a key block are refused
+                for nb in (16, 24):
+                    tu, tv = s.key(nb, "other", otype=rec["t"], seed=7)
+                    wu, wv = s.key(32, "AES", seed=6)
+                    r = item(s.drv.request(D.one("Get", {"uid": tu, "wrap": {"kuid": wu, "mode": None if rec["mode"] == "NONE" else rec["mode"]}})))
+                    n += 1
+                    sig = {"k": "wrap", "mode": rec["mode"], "t": rec["t"]}
+                    run.case(("wrap", rec["mode"], rec["t"], nb, r["status"], r["reason"]))
+                    if r["reason"] == "GeneralFailure":
+                        run.violation("C06_internal_error", sig, {"row": rec, "response": r})
+                    elif rec["out"]["kind"] == "refuse":
+                        if r["status"] == "Success":
+                            run.violation("C06_accepts_what_must_be_refused", sig, {"row": rec, "response": r})
+                    elif r["status"] != "Success":
+                        run.note_drift({"what": ["refuses a combination the reference computes"], "sig": sig, "reason": r["reason"]})
+                    else:
+                        got = s.intern.val(r["pl"]["obj"]["val"])
+                        if got != R.rfc3394_wrap(wv, tv):
+                            run.violation("C06_wrapped_key_differs_from_rfc3394", sig, {"got": got.hex(), "want": R.rfc3394_wrap(wv, tv).hex()})
+                        g = item(s.drv.request(D.one("Get", {"uid": tu})))
+                        if s.intern.val(g["pl"]["obj"]["val"]) != tv:
+                            run.violation("C06_wrapping_altered_the_stored_key", sig, {"row": rec})
             elif rec["k"] == "wrap":
                 for nb in (16, 24, 32):
                     tu, tv = s.key(nb, "AES", seed=5)
@@ -296,7 +337,9 @@ def other_rows(run, rows, quick):
     run.extra["mac_derive_wrap_requests"] = n
 
 
-def signatures(run, quick):
+def signatures(run, quick, rows=()):
+    """rows: the k = "sign" rows of CryptoTerms.tla (padding x digital signature algorithm x algorithm x hash over the
+    complete enumerations, each mapped to a refusal or to the signature term)."""
     from cryptography.hazmat.primitives import hashes, serialization
     from cryptography.hazmat.primitives.asymmetric import padding as apad
     s = Srv()
@@ -325,23 +368,28 @@ def signatures(run, quick):
             pk = serialization.load_pem_public_key(pairs[0][2])
         if pk.key_size != 1024:
             run.violation("C06_generated_length", {"k": "createkeypair"}, {"key_size": pk.key_size})
-        hmap = {"SHA_256": hashes.SHA256, "SHA_1": hashes.SHA1, "SHA_512": hashes.SHA512}
-        dsas = {"SHA256_WITH_RSA_ENCRYPTION": hashes.SHA256, "SHA1_WITH_RSA_ENCRYPTION": hashes.SHA1, "SHA512_WITH_RSA_ENCRYPTION": hashes.SHA512}
+        hmap = {"SHA_256": hashes.SHA256, "SHA_1": hashes.SHA1, "SHA_512": hashes.SHA512, "SHA_224": hashes.SHA224,
+                "SHA_384": hashes.SHA384, "MD5": hashes.MD5}
         msgs = [b"", b"message", bytes(range(256)) * 3]
         cases = []
-        for padm in ("PSS", "PKCS1v15"):
-            for dsa in dsas:
-                cases.append(({"pad": padm, "dsa": dsa}, dsas[dsa], padm))
-            for h in hmap:
-                cases.append(({"pad": padm, "alg": "RSA", "hash": h}, hmap[h], padm))
-        cases.append(({"pad": "OAEP", "dsa": "SHA256_WITH_RSA_ENCRYPTION"}, None, None))
-        cases.append(({"pad": "PSS", "dsa": "ECDSA_WITH_SHA256"}, None, None))
-        cases.append(({"pad": "PSS", "dsa": "MD2_WITH_RSA_ENCRYPTION"}, None, None))
-        cases.append(({"pad": None, "dsa": "SHA256_WITH_RSA_ENCRYPTION"}, None, None))
-        cases.append(({"pad": "PSS"}, None, None))
+        for rec in rows:
+            d, out = rec["d"], rec["out"]
+            cp = {"pad": None if d["pad"] == "absent" else d["pad"], "dsa": None if d["dsa"] == "NONE" else d["dsa"],
+                  "alg": None if d["alg"] == "NONE" else d["alg"], "hash": None if d["hash"] == "NONE" else d["hash"]}
+            cp = {k: v for k, v in cp.items() if v is not None}
+            if out["kind"] == "term":
+                cases.append((cp, hmap[out["t"][2]], out["t"][1]))
+            else:
+                cases.append((cp, None, None))
+        if not cases:
+            raise common.MachineryFailure("no signature rows from CryptoTerms.tla")
+        rnd = random.Random(common.SEED * 7 + 1)
         for cp, hcls, padm in cases:
-            for m in msgs:
-                sig = {"k": "sign", "pad": cp.get("pad"), "dsa": cp.get("dsa"), "hash": cp.get("hash")}
+            # every row with one message; the rows the server computes with all of them (quick: a third of the refused rows)
+            for m in (msgs if hcls is not None else [rnd.choice(msgs)]):
+                if quick and hcls is None and rnd.random() < 0.6:
+                    continue
+                sig = {"k": "sign", "pad": cp.get("pad"), "dsa": cp.get("dsa"), "hash": cp.get("hash"), "alg": cp.get("alg")}
                 r = item(s.drv.request(D.one("Sign", {"uid": pairs[0][0], "cp": cp, "data": m.hex()}, ver=(1, 4))))
                 n += 1
                 run.case(("sign", common.jdump(sig), len(m), r["status"], r["reason"]))
@@ -443,8 +491,8 @@ def check(run, tier):
                 run.sample({"row": p, "prescribed": o["row"]["enc"], "observed": [o["status"], o["reason"]]})
     run.traces += nrun
     run.extra["encrypt_decrypt_cases"] = nrun
-    other_rows(run, rest, quick)
-    signatures(run, quick)
+    other_rows(run, [r for r in rest if r["k"] != "sign"], quick)
+    signatures(run, quick, [r for r in rest if r["k"] == "sign"])
     run.assumptions += ["arithmetic of the primitives is decided by the reference implementations (trusted base: hashlib, hmac, the raw "
                         "cipher primitives of `cryptography` called directly, RFC 4493/5869/3394/SP 800-108 code in harness/cryptoref.py "
                         "checked against published vectors); TLA+ decides plumbing and refusals",
